@@ -7,6 +7,7 @@ For every function of the analysed modules a behaviour-preserving variant of the
   rename   every local variable of the function (not parameters, not attributes) gets the suffix `_rn`
   flip     every `if a: X else: Y` of the function becomes `if not a: Y else: X`
   retvar   every `return <expr>` becomes `_rv = <expr>; return _rv`
+  hoistcond  every plain `if <test>:` becomes `_cN = <test>; if _cN:`
   flipchain  the same, applied to if/elif/else chains too (`if a: X elif b: Y` becomes `if not a: (if not b: pass else: Y) else: X`)
 
 The variants are written to scratch directories under /tmp and removed immediately.
@@ -135,6 +136,66 @@ def retvar(fn) -> bool:
     return t.changed
 
 
+class _HoistCond(ast.NodeTransformer):
+    """`if <test>:` -> `_cN = <test>; if _cN:` for plain if statements (not elif arms), not inside nested definitions"""
+    def __init__(self):
+        self.n = 0
+
+    def visit_FunctionDef(self, node):
+        return node
+
+    visit_AsyncFunctionDef = visit_Lambda = visit_ClassDef = visit_FunctionDef
+
+    def visit_If(self, node):
+        # children first; an `elif` arm is the sole If of an orelse list: leave its test in place
+        node.body = self._block(node.body)
+        if len(node.orelse) == 1 and isinstance(node.orelse[0], ast.If):
+            inner = node.orelse[0]
+            inner.body = self._block(inner.body)
+            inner.orelse = self._block(inner.orelse) if not (len(inner.orelse) == 1 and isinstance(inner.orelse[0], ast.If)) \
+                else [self._elif(inner.orelse[0])]
+        else:
+            node.orelse = self._block(node.orelse)
+        if isinstance(node.test, (ast.Name, ast.Constant)) or any(isinstance(x, (ast.NamedExpr, ast.Await, ast.Yield))
+                                                                  for x in ast.walk(node.test)):
+            return node
+        self.n += 1
+        name = f"_c{self.n}"
+        assign = ast.Assign(targets=[ast.Name(id=name, ctx=ast.Store())], value=node.test)
+        node.test = ast.Name(id=name, ctx=ast.Load())
+        return [assign, node]
+
+    def _elif(self, node):
+        node.body = self._block(node.body)
+        if len(node.orelse) == 1 and isinstance(node.orelse[0], ast.If):
+            node.orelse = [self._elif(node.orelse[0])]
+        else:
+            node.orelse = self._block(node.orelse)
+        return node
+
+    def _block(self, stmts):
+        out = []
+        for st in stmts:
+            r = self.visit(st)
+            out.extend(r if isinstance(r, list) else [r])
+        return out
+
+    def generic_visit(self, node):
+        for field in ("body", "orelse", "finalbody"):
+            b = getattr(node, field, None)
+            if isinstance(b, list) and b and isinstance(b[0], ast.stmt):
+                setattr(node, field, self._block(b))
+        for h in getattr(node, "handlers", []) or []:
+            h.body = self._block(h.body)
+        return node
+
+
+def hoistcond(fn) -> bool:
+    t = _HoistCond()
+    fn.body = t._block(fn.body)
+    return t.n > 0
+
+
 def make_variants(kinds, module_filter):
     out = []
     for rel in MODULES:
@@ -150,6 +211,7 @@ def make_variants(kinds, module_filter):
                 if fn is None:
                     continue
                 ok = rename_locals(fn) if kind == "rename" else retvar(fn) if kind == "retvar" \
+                    else hoistcond(fn) if kind == "hoistcond" \
                     else flip_ifs(fn, chains=(kind == "flipchain"))
                 if not ok:
                     continue
